@@ -2,7 +2,7 @@ SPECIFICATION Spec
 CONSTANTS
   B = 4
   Clients = {0, 1}
-  AppBudget = 7
+  AppBudget = 6
   MaxCreates = 2
   AssertRegisteredOnClose = FALSE
 INVARIANTS NoUnexpectedNoPanic BrokerNoPanic NobodyClosed Agreement
